@@ -401,7 +401,51 @@ PROP.case_type = 'c01t_case'
 PROP.corr_fn = 'c01t_corr'
 PROP.fail_fn = 'c01t_fail'
 
+def text_iso_measure(seed, n):
+    """pairs (cut string, the uncut molecule as a single fragment): how many satisfy every hypothesis of the text-level
+    isomorphism theorem but the transcript hypotheses (Compose/TextDomain.iso_domain_sound; tdp_class = 0)"""
+    import os, subprocess, collections
+    ctx = common.Ctx('C01ti', 'quick', seed)
+    prop = C01()
+    terms, kept = [], []
+    for c in prop.generate(ctx, n):
+        gl = c.get('glevel')
+        if not gl or not gl.get('single_same'):
+            continue
+        g1 = prop._graph_level(c)
+        c2 = {'s': c['single'], 'ctor': 'string',
+              'glevel': {'atoms': gl['atoms'], 'bonds': gl['bonds'], 'parts': [['M', gl['single_order']]], 'dord': []}}
+        g2 = prop._graph_level(c2)
+        if g1 is None or g2 is None:
+            continue
+        t1, t2 = text_domain_literal(c, g1['hcount']), text_domain_literal(c2, g2['hcount'])
+        if t1 is None or t2 is None:
+            continue
+        terms.append('(%s, %s)' % (t1, t2))
+        kept.append(c)
+    src = ('From Coq Require Import String.\nFrom Coq Require Import List Ascii ZArith Bool.\n'
+           'From CGV Require Import Base.PyBase Base.PyVal Base.NxGraph Dialect.DialectImpl Frag.FragText Compose.CutModel '
+           'Compose.TextCut Compose.TextDomain.\nImport ListNotations.\nOpen Scope Z_scope.\n'
+           'Definition cases : list (td_case * td_case) := [\n' + ';\n'.join(terms) + '].\n'
+           'Eval vm_compute in (map (tdp_class (fo_of_table [])) cases).\n')
+    path = os.path.join(ctx.work, 'ti_cases.v')
+    open(path, 'w').write(src)
+    out = subprocess.run(['coqc', '-Q', os.path.join(common.VERIF, 'theories'), 'CGV', path], capture_output=True, text=True,
+                         timeout=3000)
+    nums = [int(x) for x in re.findall(r'(\d+)%nat', out.stdout)]
+    print('pairs with the same written molecule', len(kept), 'evaluated', len(nums))
+    print('classes', dict(collections.Counter(nums)))
+    for c, k in zip(kept, nums):
+        if k != 0:
+            print(k, c['s'], c['single'])
+    if out.returncode != 0:
+        print(out.stderr[-2000:])
+    ctx.cleanup()
+
+
 if __name__ == '__main__':
     import sys
     if len(sys.argv) >= 2 and sys.argv[1] == '--text-domain':
         text_domain_measure(int(sys.argv[2]) if len(sys.argv) > 2 else 0, int(sys.argv[3]) if len(sys.argv) > 3 else 100)
+    if len(sys.argv) >= 2 and sys.argv[1] == '--text-iso':
+        text_iso_measure(int(sys.argv[2]) if len(sys.argv) > 2 else 0, int(sys.argv[3]) if len(sys.argv) > 3 else 100)
